@@ -176,6 +176,13 @@ pub fn calls_case(r: &mut Rng, n_calls: usize, flavour: u8) -> String {
 
 /// `forced`: the calls are mutable puts to one key with exactly these (seq, cas), a few ticks apart, and nothing else
 pub fn calls_case_x(r: &mut Rng, n_calls: usize, flavour: u8, forced: Option<Vec<(i64, Option<i64>)>>) -> String {
+    calls_case_s(r, n_calls, flavour, forced, false)
+}
+
+/// `stale`: three calls for one immutable target: a get (everybody answers, with tokens); 299.8 s later a put, which starts
+/// at once from the cached nodes and stays in flight (some peers do not answer store requests); 0.3 s later - the tokens
+/// are older than five minutes now - the same put again: it needs a lookup of its own
+pub fn calls_case_s(r: &mut Rng, n_calls: usize, flavour: u8, forced: Option<Vec<(i64, Option<i64>)>>, stale: bool) -> String {
     let n_peers = 5;
     let mut s = Scn::new(r, n_peers, false, Default::default());
     let sk = SigningKey::from_bytes(&[5u8; 32]);
@@ -223,9 +230,9 @@ pub fn calls_case_x(r: &mut Rng, n_calls: usize, flavour: u8, forced: Option<Vec
     };
     let mut seq_ctr: i64 = 0;
     for i in 0..n_calls {
-        let silent: Vec<bool> = (0..n_peers).map(|p| p != 0 && r.chance(1, 4)).collect();
+        let silent: Vec<bool> = (0..n_peers).map(|p| !stale && p != 0 && r.chance(1, 4)).collect();
         let c = log.chans.len();
-        match if forced.is_some() { 4 } else { r.below(5) } {
+        match if stale { [1u64, 4, 4][i.min(2)] } else if forced.is_some() { 4 } else { r.below(5) } {
             0 => {
                 let (tx, rx) = flume::unbounded();
                 let t = if r.chance(2, 3) { *r.pick(&targets) } else { Id::from({ let mut b = [0u8; 20]; for x in b.iter_mut() { *x = r.byte(); } b }) };
@@ -238,8 +245,8 @@ pub fn calls_case_x(r: &mut Rng, n_calls: usize, flavour: u8, forced: Option<Vec
                 log.steps.push(format!("(EvGet {} {}, {})", log.pool.idx(&t), c, o));
             }
             1 => {
-                let t = *r.pick(&targets);
-                if r.chance(1, 2) {
+                let t = if stale { targets[0] } else { *r.pick(&targets) };
+                if stale || r.chance(1, 2) {
                     let (tx, rx) = flume::unbounded();
                     s.node.actor.verif_get(request_of(2, t), ResponseSender::Immutable(tx));
                     log.chans.push((Chan::Imm(rx), false));
@@ -266,9 +273,10 @@ pub fn calls_case_x(r: &mut Rng, n_calls: usize, flavour: u8, forced: Option<Vec
                 };
                 let (kind, seq, cas) = match &forced { Some(f) => (1u8, f[i].0, f[i].1), None => (kind, seq, cas) };
                 let val = if forced.is_some() { format!("forced {}", i) } else { val };
+                let (kind, val) = if stale { (0u8, "stored value 0".to_string()) } else { (kind, val) };
                 let request = make_request(r, kind, seq, cas, val.as_bytes(), &sk);
                 let t = *request.target();
-                if forced.is_none() && r.chance(1, 4) {
+                if forced.is_none() && !stale && r.chance(1, 4) {
                     // find_node on the same target first (closest nodes without tokens)
                     let (tx2, rx2) = flume::unbounded();
                     s.node.actor.verif_get(request_of(0, t), ResponseSender::ClosestNodes(tx2));
@@ -291,7 +299,7 @@ pub fn calls_case_x(r: &mut Rng, n_calls: usize, flavour: u8, forced: Option<Vec
                 log.steps.push(format!("(EvPut {} {} {} {}, {})", log.pool.idx(&t), c, m, boolean(cached), o));
             }
         }
-        for _ in 0..(if forced.is_some() { r.range(0, 4) } else if flavour == 2 { r.range(6, 30) } else { r.range(1, 6) }) {
+        for _ in 0..(if stale { [14u64, 1, 10][i.min(2)] } else if forced.is_some() { r.range(0, 4) } else if flavour == 2 { r.range(6, 30) } else { r.range(1, 6) }) {
             let dup = r.chance(1, 5);
             let sl = silent.clone();
             let mut extra: Vec<(usize, std::net::SocketAddrV4, u32, MessageType)> = Vec::new();
@@ -310,7 +318,9 @@ pub fn calls_case_x(r: &mut Rng, n_calls: usize, flavour: u8, forced: Option<Vec
                 s.peers[p].send(from, tid, mt, false, None);
             }
         }
-        if forced.is_none() && r.chance(1, 5) {
+        if stale {
+            s.advance([299_800u64, 300, 0][i.min(2)]);
+        } else if forced.is_none() && r.chance(1, 5) {
             s.advance(r.range(100, 2500));
         }
     }
@@ -380,6 +390,9 @@ pub fn generate(seed: u64, scale: usize) -> Cases {
     // still be told (a refused second call must not take the first one's query with it)
     for (seq2, cas2) in [(9i64, None), (9, Some(10i64)), (9, Some(9)), (10, None), (10, Some(10)), (11, None), (11, Some(10)), (11, Some(9)), (11, Some(11))] {
         cases.push("two_mutable_puts_then_quiet", calls_case_x(&mut r, 2, 0, Some(vec![(10, None), (seq2, cas2)])));
+    }
+    for _ in 0..2 {
+        cases.push("second_put_after_the_tokens_went_stale", calls_case_s(&mut r, 3, 2, None, true));
     }
     cases
 }
